@@ -212,6 +212,33 @@ theorem chain_sorted {root : Cls} (hs : Sorted root.prefixes) (levels : List (Li
   | nil => exact hs
   | cons d rest ih => exact ih (mkClass_sorted _ _)
 
+/-- A wildcard prefix of the root stays a key of the table of every derived
+class (possibly with a redeclared trait). -/
+theorem mkClass1_prefix_key {root : Cls} (d : List (Name × Trait)) {k : Name}
+    (h : ∃ t, (k, t) ∈ root.prefixes) : ∃ t, (k, t) ∈ (mkClass [root] d).prefixes := by
+  obtain ⟨t0, h0⟩ := h
+  have : ∃ t, Map.get (mergePrefixes (ownPrefixes d) root.prefixes) k = some t := by
+    rw [mergePrefixes_get]
+    cases Map.get (ownPrefixes d) k with
+    | some t => exact ⟨t, rfl⟩
+    | none => exact Map.get_isSome_of_mem (e := (k, t0)) h0
+  obtain ⟨t, ht⟩ := this
+  refine ⟨t, ?_⟩
+  unfold mkClass
+  simp only [List.foldl_cons, List.foldl_nil]
+  apply mem_sortPrefixes.mpr
+  have hmm := Map.mem_of_get ht
+  unfold ensureDefault
+  cases Map.get (mergePrefixes (ownPrefixes d) root.prefixes) [] with
+  | some _ => exact hmm
+  | none => exact List.mem_append_left _ hmm
+
+theorem chain_prefix_key {root : Cls} (levels : List (List (Name × Trait))) {k : Name}
+    (h : ∃ t, (k, t) ∈ root.prefixes) : ∃ t, (k, t) ∈ (chain root levels).prefixes := by
+  induction levels generalizing root with
+  | nil => exact h
+  | cons d rest ih => exact ih (mkClass1_prefix_key d h)
+
 /-- For a name no class of the chain declares, exactly or by a matching
 wildcard, the class-level rule is the root's wildcard rule. -/
 theorem chain_classGov {P : Trait → Prop} {root : Cls} (htot : Total root) {name : Name}
@@ -238,43 +265,9 @@ theorem chain_classGov {P : Trait → Prop} {root : Cls} (htot : Total root) {na
       · exact absurd hp (hwild l hl e he)
       · apply hrootP e he hp
         intro e' he' hp'
-        -- every wildcard of the root is still in the table of the derived class unless redeclared,
-        -- and a redeclaration would match the name, which `hwild` excludes
-        by_cases hlen : e'.1.length ≤ e.1.length
-        · exact hlen
-        · exfalso
-          -- e' (or a redeclaration of its prefix) is in the chain's table and matches: contradiction with hmax
-          have : ∃ e'' ∈ (chain root levels).prefixes, e''.1 = e'.1 := by
-            clear hmax hf hm hp he hrootP hroot hown
-            induction levels generalizing root with
-            | nil => exact ⟨e', he', rfl⟩
-            | cons d rest ih =>
-              have hget : ∃ t, Map.get (mkClass [root] d).prefixes e'.1 = some t := by
-                have : ∃ t, Map.get (mergePrefixes (ownPrefixes d) root.prefixes) e'.1 = some t := by
-                  rw [mergePrefixes_get]
-                  cases Map.get (ownPrefixes d) e'.1 with
-                  | some t => exact ⟨t, rfl⟩
-                  | none => exact Map.get_isSome_of_mem he'
-                obtain ⟨t, ht⟩ := this
-                have hm1 : (e'.1, t) ∈ (mkClass [root] d).prefixes := by
-                  unfold mkClass
-                  simp only [List.foldl_cons, List.foldl_nil]
-                  apply mem_sortPrefixes.mpr
-                  have hmm := Map.mem_of_get ht
-                  unfold ensureDefault
-                  cases Map.get (mergePrefixes (ownPrefixes d) root.prefixes) [] with
-                  | some _ => exact hmm
-                  | none => exact List.mem_append_left _ hmm
-                exact Map.get_isSome_of_mem (e := (e'.1, t)) hm1
-              obtain ⟨t, ht⟩ := hget
-              have hm1 := Map.mem_of_get ht
-              obtain ⟨e'', he'', hk⟩ := ih (root := mkClass [root] d) (Total_mkClass _ _) (mkClass_sorted _ _)
-                (fun l hl => hwild l (List.mem_cons_of_mem _ hl)) (e' := (e'.1, t)) hm1 hp' (by simpa using hlen)
-              exact ⟨e'', he'', hk⟩
-          obtain ⟨e'', he'', hk⟩ := this
-          have := hmax e'' he'' (hk ▸ hp')
-          rw [hk] at this
-          exact hlen this
+        -- the prefix of e' is still a key of the derived class's table, so the first match is at least as long
+        obtain ⟨t'', h''⟩ := chain_prefix_key levels (k := e'.1) ⟨e'.2, he'⟩
+        exact hmax (e'.1, t'') h'' hp'
 
 /-! ### the sample environment and the initial world -/
 
